@@ -13,6 +13,7 @@ type Options struct {
 	MaxExecs int64     // cap on executions (0 = none)
 	Deadline time.Time // real-time cap (zero = none); hitting it yields Exhaustive=false, never a verdict
 	NoCache  bool      // disable happens-before caching (cross-validation)
+	BoundAll bool      // every departure from the default scheduler is a deviation (see sched.BoundAll)
 	Trace    bool
 }
 
@@ -126,6 +127,8 @@ type Judge func(e *Exec) (outcome string, digest string, fail *Failure)
 // Explore runs body under every schedule within opt and judges each complete execution.
 func Explore(opt Options, body func(), judge Judge) *Stats {
 	st := &Stats{Exhaustive: true, Outcomes: map[string]int64{}}
+	BoundAll = opt.BoundAll
+	defer func() { BoundAll = false }()
 	if opt.MaxSteps == 0 {
 		opt.MaxSteps = 200000
 	}
